@@ -723,7 +723,7 @@ func (c *converter) AppCall(calls []transpiler.AppCall, valueUsed bool) ([]strin
 
 func (c *converter) Input(prompt string, valueUsed bool) (string, error) {
 	helper := c.nextHelperVar()
-	c.addLine(fmt.Sprintf(`set /p "%s=%s"`, helper, prompt))
+	c.addLine(fmt.Sprintf(`set /p "%s=%s"`, c.varName(helper, false), prompt))
 	return c.VarEvaluation(helper, valueUsed, false)
 }
 
